@@ -215,6 +215,11 @@ fn parent(id: &str, tier: &str) {
     std::fs::create_dir_all(format!("{root}/evidence")).ok();
     let mut f = std::fs::File::create(format!("{root}/evidence/{id}.json")).expect("MACHINERY: evidence file");
     f.write_all(&serde_json::to_vec_pretty(&evidence).unwrap()).unwrap();
+    // a per-tier copy, so that a quick run does not erase what the last thorough run covered
+    std::fs::create_dir_all(format!("{root}/evidence/by-tier")).ok();
+    if let Ok(mut f) = std::fs::File::create(format!("{root}/evidence/by-tier/{id}.{tier}.json")) {
+        let _ = f.write_all(&serde_json::to_vec_pretty(&evidence).unwrap());
+    }
     println!(
         "{id} {tier}: states={} transitions={} traces={} evaluations={} outcomes={} goals={:?} wall={:.1}s cap_hit={}",
         states, rep.transitions, rep.traces, rep.evaluations, distinct, rep.goals, wall, rep.cap_hit
